@@ -7,8 +7,8 @@
 (* Positions are pairs of angles with RATIONAL sine and cosine             *)
 (* <<p, q, r>>, sin = p/r, cos = q/r, p^2 + q^2 = r^2 (every rational      *)
 (* t = tan(a/2) = m/n gives <<2mn, n^2-m^2, n^2+m^2>>: the lattice is      *)
-(* dense), so that the rotation matrix has rational entries which this     *)
-(* module computes in BigFix; the specification IS the oracle there.       *)
+(* dense), so that the rotation matrix has rational entries which module   *)
+(* LocalFrame computes in BigFix; the specification IS the oracle there.   *)
 (* Everywhere else the clauses are polynomial identities evaluated on      *)
 (* observed numbers (Trace_Local).                                         *)
 (*                                                                         *)
@@ -21,7 +21,8 @@
 (*          coverage factor), NoOut otherwise                              *)
 (*   h      labels of the calls made so far                                *)
 (* One action per public function.  All actions are deterministic and are  *)
-(* written as functions Post_X so that Trace_Local re-uses them.           *)
+(* written as functions Post_X (module LocalFrame) so that Trace_Local     *)
+(* re-uses them.                                                           *)
 (***************************************************************************)
 EXTENDS LocalFrame
 
@@ -39,7 +40,6 @@ FixM(m) == <<FixV(m[1]), FixV(m[2]), FixV(m[3])>>
 NoOut == [kind |-> "none"]
 NoVal == [kind |-> "none", m |-> <<>>]
 Frames == {"cart", "local"}
-Other(f) == IF f = "cart" THEN "local" ELSE "cart"
 
 \* (the three kinds are kept apart: TLC cannot compare a vector with a matrix inside one set)
 Init == /\ pos \in Lats \X Lons
